@@ -2,12 +2,13 @@
 # run_seeded_wt.sh <seeded-id> <check>...: like run_seeded.sh but on a scratch worktree of /repo HEAD (YAEP_REPO), leaving /repo untouched
 id=$1; shift
 W=/tmp/mutrepo.$$
+L=${SEEDED_LOGDIR:-/tmp}
 git -C /repo worktree prune
 git -C /repo worktree add --detach $W HEAD >/dev/null 2>&1 || { echo "$id: worktree failed"; exit 2; }
 git -C $W apply /verif/seeded/$id/patch.diff || { echo "$id: patch does not apply"; git -C /repo worktree remove --force $W; exit 2; }
 cd /verif
 for c in "$@"; do
-  YAEP_REPO=$W timeout 1500 bin/check $c > /tmp/seeded_${id}_${c}.log 2>&1; rc=$?
-  echo "$id $c exit=$rc $(grep -c '^VIOLATION' /tmp/seeded_${id}_${c}.log) violation lines; $(grep '^VIOLATION' /tmp/seeded_${id}_${c}.log | head -2 | cut -c1-220 | tr '\n' '|')"
+  YAEP_REPO=$W timeout 1500 bin/check $c > $L/seeded_${id}_${c}.log 2>&1; rc=$?
+  echo "$id $c exit=$rc $(grep -c '^VIOLATION' $L/seeded_${id}_${c}.log) violation lines; $(grep '^VIOLATION' $L/seeded_${id}_${c}.log | head -2 | cut -c1-220 | tr '\n' '|')"
 done
 git -C /repo worktree remove --force $W
